@@ -8,9 +8,11 @@ sys.path.insert(0, os.path.dirname(os.path.abspath(__file__)))
 from framework import REPO
 
 TIE = ["Nsq.Tie.ToolsToFile", "Nsq.Tie.ToolsToFileFn"]
-PROPS = ["Nsq.Props.C19", "Nsq.Props.C19Name", "Nsq.Props.C19Disc", "Nsq.Props.C19Ops"]
+PROPS = ["Nsq.Props.C19", "Nsq.Props.C19Name", "Nsq.Props.C19Disc", "Nsq.Props.C19Ops",
+         "Nsq.Props.C19Lines", "Nsq.Props.C19Mono"]   # c19a (audit 7): line-level statement (C5/C4), step-wise no-overwrite + tool runs (C29)
 CORPUS = os.path.join(fw.ROOT, "corpus", "C19")
-HARNESS = ["e8/tofile_test.go", "e8/tofile_names_test.go", "e8/tofile_disc_test.go", "e8/tofile_xdev_test.go", "e8/tofile_giveup_test.go", "e8/stub_nsqd.go"]
+HARNESS = ["e8/tofile_test.go", "e8/tofile_names_test.go", "e8/tofile_disc_test.go", "e8/tofile_xdev_test.go", "e8/tofile_giveup_test.go", "e8/stub_nsqd.go",
+           "e8/tofile_lines_test.go"]   # c19a: line-level replays + probes of fixes F46/F47
 
 
 def build_pair(ctx):
@@ -87,11 +89,20 @@ def run(ctx):
         "go-nsq (Message.Finish calls the delegate once; max_attempts handling is outside the router)",
         "Go runtime fake clock (-tags faketime, the playground clock): only the clock source differs, the router "
         "code is compiled unchanged; time advances only when every goroutine is blocked",
-        "correspondence harness harness/e8/tofile_test.go; strace(1) output order (syscall leg)",
+        "correspondence harness harness/e8/tofile_test.go (fault seams: dup3 onto the descriptor of f.out, SIGKILL from the "
+        "FIN delegate / log callback; starvation seam: a never-dialled nsq.Conn registered in the real Consumer); "
+        "strace(1) output order (syscall leg)",
         "go2lean kind `skeleton` (statement skeletons of router/Close/Sync/Write/needsRotation/updateFile/exclusiveRename)",
     ]
     ctx.assumptions += [
-        "single writer: no other process renames or writes the tool's files while it runs",
+        "writers: no other process renames, truncates or overwrites the tool's files while it runs; other processes may create "
+        "new files (Ev.ext) and - plain append mode only - another O_APPEND writer (a second router of the same build: "
+        "--filename-format without <TOPIC>) may append whole records with one write(2) each (Ev.extAppend; that is what fix F46 "
+        "makes every router do; on the tree without F46 two routers sharing a file is the open finding two-routers-one-file)",
+        "fin_owns_line_partial (tree without fix F47, plain append mode): every pre-existing file and every file another process "
+        "drops is empty or ends in \"\\n\" (no writer died inside a record, no short write); unconditional with F47 "
+        "(fin_owns_line_fixed) and in O_EXCL modes (fin_owns_line_excl); refuted without (fin_owns_line_full_false, open "
+        "finding torn-tail-append); a short write(2) is not a model primitive - its effect is a torn tail in the next run's directory",
         "tool_fin_implies_durable_partial: the consumer library does not give up (max_attempts = 0 or attempts <= "
         "max_attempts); with the default max_attempts=5 the full tool-level statement is refuted (open finding "
         "gives-up-after-max-attempts); all router-level theorems are unconditional",
@@ -99,8 +110,10 @@ def run(ctx):
     ctx.rule = ("one case = one generated script (configuration: gzip, rotate-size, rotate-interval, work-dir, "
                 "skip-empty-files, max-in-flight, sync-interval, datetime format, filename format with/without <REV>; "
                 "pre-existing colliding files in both dirs; events msg / clock advance / ticker tick / SIGHUP / "
-                "SIGTERM+stop / stop without shutdown) run through the real FileLogger.router() in a child process "
-                "on the fake clock; every event's FIN batch + directory listing and the final decoded tree are "
+                "SIGTERM+stop / stop without shutdown; consumer starvation both ways on msg events; in one script of "
+                "three one injected fault: SIGKILL before the n-th Finish / between the writes and Sync / before the "
+                "move's link, or a failing write / fsync on f.out before or after the FIN batch; max-in-flight 0) "
+                "run through the real FileLogger.router() in a child process on the fake clock; every event's FIN batch + directory listing and the final decoded tree are "
                 "compared with the Lean model; distinct = distinct (op line, answer) pairs, non-trivial = an event "
                 "that finished a message, changed a file or ended the process")
     # 1-2: regenerate, build, audit
@@ -164,7 +177,7 @@ def run(ctx):
                 if l.startswith("HIST "):
                     _, k, v = l.split()
                     hist[k] = int(v)
-            cc = sorted(set(o.split()[-1] for o in ops if o.startswith("tf conf") and len(o.split()) == 10))
+            cc = sorted(set(o.split()[9] for o in ops if o.startswith("tf conf") and len(o.split()) >= 10))
             ctx.corr["close_clears_out_probe"] = cc   # ["0"]: tree before fix F44, ["1"]: with it (model parameter Cfg.closeClears)
             ctx.corr.setdefault("runs", []).append({"label": label, "histogram": hist,
                                                      "oracle": [l for l in log.splitlines() if l.startswith("ORACLE-DONE")]})
@@ -217,6 +230,9 @@ def run(ctx):
         names_leg(ctx, parent, corr_broken)
         disc_leg(ctx, parent, corr_broken)
         xdev_leg(ctx, parent, corr_broken)
+        # ---- c19a (audit 7, C5/C4): line-level replays on the real FileLogger, probes of fixes F46/F47 ----
+        import c19_lines
+        c19_lines.lines_leg(ctx, parent, corr_broken)
     # known finding replay on the REAL binary: the tool as shipped (router behind go-nsq's handlerLoop)
     if parent and not ctx.replay_in:
         giveup_leg(ctx, parent, corr_broken)
@@ -411,9 +427,18 @@ def giveup_leg(ctx, parent, corr_broken):
     if dmx is None:
         corr_broken.append("regenerated default max_attempts not found (Gen/ToolsToFileFn.lean)")
         return
+    known_replay = os.path.join(CORPUS, "known", "max_attempts.txt")   # the `replay` of known_findings.d/C19.json (audit C36)
     rc, log = ctx.run_cmd([parent, "-test.run", "^TestVerifToFileGiveUpBin$", "-test.count=1", "-test.timeout=0"], timeout=400,
-                          env={"VF_E8_TOFILE_BIN": binp})
+                          env={"VF_E8_TOFILE_BIN": binp, "VF_E8_GIVEUP_REPLAY": known_replay})
     rows = [dict(kv.split("=", 1) for kv in l.split()[1:]) for l in log.splitlines() if l.startswith("GIVEUPBIN ")]
+    replayed = [dict(kv.split("=", 1) for kv in l.split()[1:]) for l in log.splitlines() if l.startswith("GIVEUPBIN-REPLAY ")]
+    ctx.corr["give_up_known_replay"] = {"file": os.path.relpath(known_replay, fw.ROOT), "lines": replayed}
+    for rp in replayed:   # each committed line must have been run both ways on the real binary
+        for cli in ("default", "max_attempts,%s" % rp["max_attempts"]):
+            if not any(r["cli"] == cli and r["attempts"] == rp["attempts"] for r in rows):
+                corr_broken.append("known-finding replay %s not run with cli=%s" % (rp, cli))
+    if not replayed or "GIVEUPBIN-ERROR" in log:
+        corr_broken.append("known-finding replay corpus/C19/known/max_attempts.txt was not read")
     if len(rows) < 9:
         ctx.log("give-up replay did not run completely:\n" + log[-800:])
         corr_broken.append("give-up replay (TestVerifToFileGiveUpBin)")
@@ -451,6 +476,19 @@ def giveup_leg(ctx, parent, corr_broken):
             elif a == "refused" and b == "started":
                 ctx.violation("tofile-main-refuses-valid", "nsq_to_file refused an option set its start-up checks (as modelled) accept: "
                               + mops[idx], mops[idx] + "\n")
+    # the starvation input produced by a real go-nsq consumer connection (audit C30.2)
+    rc, slog = ctx.run_cmd([parent, "-test.run", "^TestVerifToFileStarved$", "-test.count=1", "-test.timeout=0"], timeout=300)
+    srows = [dict(kv.split("=", 1) for kv in l.split()[1:]) for l in slog.splitlines() if l.startswith("STARVED ")]
+    ctx.corr["starved_real_connection"] = srows
+    if "ORACLE-DONE starved" not in slog or len(srows) < 3:
+        corr_broken.append("starved-path leg (TestVerifToFileStarved) did not run")
+    for l in slog.splitlines():
+        if l.startswith("ORACLE-FAIL starved"):
+            ctx.violation("tofile-starved-fin-without-line", "nsq_to_file (starved path): " + l[len("ORACLE-FAIL starved "):], l + "\n")
+    for r in srows:
+        ctx.count_case("starved|%s|%s|%s" % (r["max_in_flight"], r["delivered"], r["fins"]), nontrivial=True)
+        if int(r["fins"]) < 1:
+            corr_broken.append("starved path: none of %s messages finished with a starved connection and no tick" % r["delivered"])
     for g in grows:
         ctx.evaluations += 1
         ctx.count_case("gzlevel|%s|%s" % (g["level"], g["started"]), nontrivial=True)
